@@ -61,6 +61,7 @@ mod slice {
         let extra_cap = nd::below(2);
         let mut keep_arc: Option<Arc<[D]>> = None;
         let mut leaked_live: isize = 0;
+        let mut owned_buf: Option<(*const D, usize)> = None;
         let first: Cow<'static, [D]> = match kind {
             0 | 1 => {
                 let v: Vec<D> = model.iter().map(|x| D::new(*x)).collect();
@@ -73,6 +74,7 @@ mod slice {
                 for x in model {
                     v.push(D::new(*x));
                 }
+                owned_buf = Some((v.as_ptr(), v.capacity()));
                 Cow::from_owned(v)
             }
             _ => {
@@ -88,6 +90,11 @@ mod slice {
             1 => {
                 let v = first.into_owned();
                 assert!(same_vec(&v, model), "into_owned_content");
+                if let Some((p, cap)) = owned_buf {
+                    // an owned allocation is handed back as it is: neither copied nor left behind (a buffer that is not handed
+                    // back here is one that drop() would not release either)
+                    assert!(cap == 0 || (v.as_ptr() == p && v.capacity() == cap), "owned_allocation_handed_back");
+                }
             }
             2 => {
                 let c = first.clone();
@@ -136,12 +143,14 @@ fn str_program(kind: usize, scenario: usize) {
     let s: &'static str = if kind == 3 { "bc" } else { crate::pick(T) };
     let extra_cap = nd::below(2);
     let mut keep_arc: Option<Arc<str>> = None;
+    let mut owned_buf: Option<(*const u8, usize)> = None;
     let first: SharedString = match kind {
         0 => SharedString::const_str(s),
         1 => SharedString::from_borrowed(s),
         2 => {
             let mut o = String::with_capacity(s.len() + extra_cap);
             o.push_str(s);
+            owned_buf = Some((o.as_ptr(), o.capacity()));
             SharedString::from_owned(o)
         }
         3 => {
@@ -160,7 +169,13 @@ fn str_program(kind: usize, scenario: usize) {
     assert!(&*first == s, "content_after_construct");
     match scenario {
         0 => drop(first),
-        1 => assert!(first.into_owned() == s, "into_owned_content"),
+        1 => {
+            let o = first.into_owned();
+            assert!(o == s, "into_owned_content");
+            if let Some((p, cap)) = owned_buf {
+                assert!(cap == 0 || (o.as_ptr() == p && o.capacity() == cap), "owned_allocation_handed_back");
+            }
+        }
         2 => {
             let c = first.clone();
             drop(first);
